@@ -13,6 +13,10 @@ CLAIMED = {
    text="Lean 4 theorems (Mathlib HasDerivAt over ℝ) that the s1/s2 formulas REGENERATED from hessians.py on every run are d/dr and d²/dr² of the documented Lennard-Jones, inverse-power-law (real exponent) and harmonic/Hertz (real exponent inside contact, integer exponent everywhere) potentials for all parameters; cutoff term and selector table decided; translation validated numerically against the real methods; failing-input search against 40-digit derivatives.",
    note="translator expression printer trusted but numerically validated each run; float64 pow/div ≈ ℝ is a contract; documented potentials transcribed by hand from docs/hessian.md.",
    technique="Lean 4 proof (HasDerivAt identities) over source-regenerated terms + translation validation", ref="§6 C12"),
+ "C08": dict(
+   text="Lean 4: the 120 closed forms, REGENERATED from spherical_harmonics.py as exact rational data on every run, are proved equal to the orthonormal Condon–Shortley Y_lm (defined in Lean from Rodrigues' formula) identically in both angles (generic soundness lemma + kernel-evaluated decision over the whole table, which also fixes the order m=−l..l); conjugation symmetry, 2π-periodicity and the delegated l>10 branch under the library contract are theorems; Unsöld's identity is a decided polynomial identity for l≤12; dispatcher and delegated-call source are decided against the regenerated text. Extraction validated numerically every run; failing-input search against an independent reference.",
+   note="Y_lm is defined in Pms/Props/C08.lean; translator table extractor trusted but validated numerically; np.sin/cos/exp/sqrt float64 and scipy sph_harm(_y)=Y_lm are contracts (l>10 exercised numerically against mpmath).",
+   technique="Lean 4 proof (generic entry soundness + decide +kernel over regenerated table) + translation validation", ref="§6 C08"),
 }
 NOT_BUILT = {}
 
